@@ -3,7 +3,7 @@
    Arrays are (length, index function) over Q; np.pad is an arbitrary function with the contract
    [np_contract]; exp is an arbitrary positive function. *)
 From Coq Require Import ZArith QArith List Bool Lia.
-From PB Require Import lib.PySlice C18.Model C18.SumQ C18.PadProofs C18.ConvProofs C18.Model2D C18.Proofs2D.
+From PB Require Import lib.PySlice C18.Model C18.SumQ C18.PadProofs C18.ConvProofs C18.Model2D C18.Proofs2D C18.DType C18.DTypeProofs.
 Import ListNotations.
 Open Scope Z_scope.
 
@@ -237,3 +237,70 @@ Example C18_2d_window_one_nonvacuous :
   windows2d (Some [1]) 2 3 = Some (1, 1, 1, 1) /\ windows_ok (1, 1, 1, 1) /\
   windows2d (Some [1; 4; 2; 1]) 2 3 = Some (1, 4, 2, 1) /\ windows2d None 1 2 = Some (1, 1, 2, 2).
 Proof. repeat split; cbn; lia. Qed.
+
+(* ---- element types (input dtypes and containers) ----
+   numpy promotion on the twelve real dtypes, as used by the helpers: float64 absorbs, bool is neutral *)
+Theorem C18_result_type_laws : forall a b : dtype,
+  result_type a b = result_type b a /\ result_type a a = a /\
+  result_type F64 a = F64 /\ result_type DBool a = a /\
+  (is_float a = true -> is_float (result_type a b) = true).
+Proof.
+  intros a b. split; [apply result_type_comm|]. split; [apply result_type_idem|].
+  split; [apply result_type_f64|]. split; [apply result_type_bool|apply result_type_float].
+Qed.
+Print Assumptions C18_result_type_laws.
+
+(* for every input dtype / container, every mode: success, N + 2p points, output dtype float64
+   ('extrapolate' with p > 0) or the input's (np.pad modes, p = 0), interior = the data as stored *)
+Theorem C18_typed_len_interior : forall (y : vec) (c : container) (p : Z) (m : mode),
+  1 <= vlen y -> 0 <= p -> mode_ok m p ->
+  exists out od, pad_edges_typed y c p m = Ok (out, od) /\ vlen out = vlen y + 2 * p /\
+    od = pad_edges_dtype m p (asarray_dtype c) /\
+    (od = F64 \/ od = asarray_dtype c) /\
+    forall i, 0 <= i < vlen y -> vget out (p + i) = store od (vget y i).
+Proof. exact typed_len_interior. Qed.
+Print Assumptions C18_typed_len_interior.
+
+Theorem C18_dtype_rules : forall (d kd : dtype) (p n mk : Z) (ew : option (list Z)) (f : vec -> Z -> vec),
+  (p <> 0 -> pad_edges_dtype (Extrapolate ew) p d = F64) /\
+  pad_edges_dtype (NpMode f) p d = d /\ pad_edges_dtype (Extrapolate ew) 0 d = d /\
+  (1 <= n -> 1 <= mk -> convolve_dtype (Extrapolate ew) n mk d kd = F64) /\
+  (1 <= n -> 1 <= mk -> convolve_dtype (NpMode f) n mk d F64 = F64) /\
+  pad2d_dtype true d = F64 /\ pad2d_dtype false d = d.
+Proof.
+  intros. split; [apply pad_edges_dtype_extrapolate|]. split; [apply pad_edges_dtype_np|].
+  split; [reflexivity|]. split; [intros; apply convolve_dtype_float; try assumption; right; eexists; reflexivity|].
+  split; [intros; apply convolve_dtype_float; try assumption; left; reflexivity|]. split; reflexivity.
+Qed.
+Print Assumptions C18_dtype_rules.
+
+(* a value the dtype holds exactly (any float; an integer for integer dtypes; 0/1 for bool) is stored unchanged *)
+Theorem C18_store_holds : forall (d : dtype) (q : Q), holds d q -> (store d q == q)%Q.
+Proof. exact store_holds. Qed.
+Print Assumptions C18_store_holds.
+
+(* integer / bool / float32 input, arrays or Python lists: the extrapolated output is float64, its
+   values are those of the exact model, and exactly linear data is continued exactly *)
+Theorem C18_typed_linear_exact : forall (y : vec) (c : container) (p : Z) (ew : option (list Z)) (wl wr : Z) (a b : Q),
+  2 <= vlen y -> 1 <= p -> windows_of ew p = Some (wl, wr) -> 2 <= wl -> 2 <= wr ->
+  linear_on y a b ->
+  exists out, pad_edges_typed y c p (Extrapolate ew) = Ok (out, F64) /\ vlen out = vlen y + 2 * p /\
+              forall i, 0 <= i < vlen y + 2 * p -> (vget out i == a + b * inject_Z (i - p))%Q.
+Proof. exact typed_linear_exact. Qed.
+Print Assumptions C18_typed_linear_exact.
+
+Theorem C18_typed_extrapolate_values : forall (y : vec) (c : container) (p : Z) (ew : option (list Z)) (out : vec),
+  p <> 0 -> pad_edges y p (Extrapolate ew) = Ok out ->
+  exists out', pad_edges_typed y c p (Extrapolate ew) = Ok (out', F64) /\ vlen out' = vlen out /\
+               forall i, vget out' i = vget out i.
+Proof. exact typed_extrapolate_values. Qed.
+Print Assumptions C18_typed_extrapolate_values.
+
+(* building the output with the INPUT's dtype instead (np.empty_like + slice assignment) truncates
+   the fitted points: [0, 0, 1] as Python ints, window 3, pad 1 gives 0 where the line gives -2/3 *)
+Theorem C18_typed_inherit_refuted :
+  exists o1 o2, pad_edges_inherit wit_int PyInts 1 (Extrapolate (Some [3])) = Ok (o1, I64) /\
+                pad_edges_typed wit_int PyInts 1 (Extrapolate (Some [3])) = Ok (o2, F64) /\
+                (vget o1 0 == 0)%Q /\ (vget o2 0 == - 2 # 3)%Q.
+Proof. exact typed_inherit_refuted. Qed.
+Print Assumptions C18_typed_inherit_refuted.
